@@ -9,6 +9,8 @@ GNext == \/ \E v \in Vals, c \in Classes : New(v, c) /\ hist' = Append(hist, Op(
                                   \/ CopyNsga(i) /\ hist' = Append(hist, Op("copynsga", i, 0, 0, ""))
                                   \/ ToFrom(i) /\ hist' = Append(hist, Op("tofrom", i, 0, 0, ""))
                                   \/ ToFromJson(i) /\ hist' = Append(hist, Op("tofromjson", i, 0, 0, ""))
+                                  \/ CopySwarm(i) /\ hist' = Append(hist, Op("copyswarm", i, 0, 0, ""))
+                                  \/ InitPbest(i) /\ hist' = Append(hist, Op("initpbest", i, 0, 0, ""))
          \/ \E a, b \in 1..MaxObjs : Sync(a, b) /\ hist' = Append(hist, Op("sync", a, b, 0, ""))
          \/ \E i \in 1..MaxObjs, x \in Vals : \/ SetVec(i, x) /\ hist' = Append(hist, Op("setvec", i, 0, x, ""))
                                               \/ SetCost(i, x) /\ hist' = Append(hist, Op("setcost", i, 0, x, ""))
